@@ -217,7 +217,7 @@ func registerReflect() {
 		if fl == 0 {
 			in.reflectPanic("Interface")
 		}
-		if fl&2 != 0 {
+		if fl&(2|4) != 0 {
 			in.throw("explicit", "reflect.Value.Interface: cannot return value obtained from unexported field or method", Iface{T: types.Typ[types.String], V: "reflect.Value.Interface: cannot return value obtained from unexported field or method"})
 		}
 		if _, ok := t.Underlying().(*types.Interface); ok {
@@ -239,11 +239,39 @@ func registerReflect() {
 			in.throw("explicit", "reflect: Field index out of range", Iface{T: types.Typ[types.String], V: "reflect: Field index out of range"})
 		}
 		f := st.Field(int(i))
-		nf := fl
+		// as in package reflect: read-only through an unexported embedded field (4) is not inherited by the fields
+		// promoted through it, read-only through an unexported plain field (2) is
+		nf := fl &^ 4
 		if !f.Exported() {
-			nf |= 2
+			if f.Anonymous() {
+				nf |= 4
+			} else {
+				nf |= 2
+			}
 		}
 		return mkRV(f.Type(), v.(Struct)[i], nf)
+	}
+	intrinsics["(reflect.Value).FieldByIndex"] = func(in *Interp, caller *frame, fn *ssa.Function, args []Value) Value {
+		idx, ok := args[1].([]Value)
+		if !ok {
+			in.unsupported("reflect.Value.FieldByIndex with a non-concrete index")
+		}
+		cur := args[0]
+		for k, iv := range idx {
+			if k > 0 {
+				t, v, _ := rvParts(cur)
+				if pt, ok := t.Underlying().(*types.Pointer); ok {
+					if _, ok := pt.Elem().Underlying().(*types.Struct); ok {
+						if v.(*Value) == nil {
+							in.throw("explicit", "reflect: indirection through nil pointer to embedded struct", Iface{T: types.Typ[types.String], V: "reflect: indirection through nil pointer to embedded struct"})
+						}
+						cur = intrinsics["(reflect.Value).Elem"](in, caller, fn, []Value{cur})
+					}
+				}
+			}
+			cur = intrinsics["(reflect.Value).Field"](in, caller, fn, []Value{cur, iv})
+		}
+		return cur
 	}
 	intrinsics["(reflect.Value).NumField"] = func(in *Interp, caller *frame, fn *ssa.Function, args []Value) Value {
 		t, _, fl := rvParts(args[0])
